@@ -311,6 +311,9 @@ func (s *Stream) close() error {
 	if atomic.CompareAndSwapUint32(&s.state, oldState, uint32(streamClosed)) {
 		vpo(vpStreamCloseCASed, s, int64(oldState))
 		if s.getCallbacks() != nil {
+			// an OnData that started just before this close may be blocked in a read waiting for bytes that a closed
+			// stream will never be given: wake it up, otherwise the Wait below never returns
+			s.safeCloseNotify()
 			s.asyncGoroutineWg.Wait()
 		}
 		s.clean()
